@@ -485,3 +485,199 @@ func permOf(r *hutil.Rand, n int) []int {
 	}
 	return p
 }
+
+// genRelogin (C16): the sshd pid of a session logs in two or three times BEFORE the session's LOGIN record arrives (a
+// repeated line; a pid re-used by a connection whose audit session never showed up): every login but the last is
+// superseded while it waits.  Cleanup calls whose cut-off falls BETWEEN the log times of an earlier login and the last
+// one (and others anywhere) come before the LOGIN record: the last login is younger than such a cut-off, so it must
+// still be waiting afterwards, and its session - arriving inside the window - must be correlated.  By construction the
+// session's partner is the LAST login of its pid (what the correlator does by overwriting the waiting entry;
+// Model/Tracker.v: aset on [parked]).  Other sessions run alongside.
+func genRelogin(r *hutil.Rand) History {
+	g := &genState{r: r, nextSid: 1 + r.Intn(50), nextPid: 100 + r.Intn(1000)}
+	h := History{Budget: -1, Plans: map[string]SessPlan{}, Mode: "relogin"}
+	var scripts [][]HOp
+	type mark struct{ first, last int } // login ids of one pid: an earlier one and the last one
+	var marks []mark
+	cutFor := map[int]int{} // index into marks, keyed by a placeholder cut value (negative)
+	for k := 1 + r.Intn(3); k > 0; k-- {
+		sid := strconv.Itoa(g.nextSid)
+		g.nextSid += 1 + r.Intn(3)
+		pid := g.nextPid
+		g.nextPid += 1 + r.Intn(5)
+		if k > 1 && r.Chance(1, 3) {
+			// an ordinary session alongside
+			s, lid := g.sessionScript(sid, pid, true, true, r.Bool(), r.Intn(4), 0, -1)
+			scripts = append(scripts, s)
+			h.Plans[sid] = SessPlan{Sid: sid, PID: pid, HasLoginRec: true, LoginID: lid, WF: true}
+			continue
+		}
+		var sc []HOp
+		first := -1
+		for n := 1 + r.Intn(2); n > 0; n-- {
+			l := g.login(pid, "")
+			if first < 0 || r.Bool() {
+				first = l.Login.ID
+			}
+			sc = append(sc, l)
+			if r.Chance(1, 4) {
+				sc = append(sc, HOp{Kind: "clean_sess", Cut: 0})
+			}
+		}
+		last := g.login(pid, "")
+		sc = append(sc, last)
+		marks = append(marks, mark{first, last.Login.ID})
+		for n := r.Intn(3); n > 0; n-- {
+			c := HOp{Kind: hutil.Pick(r, []string{"clean_logins", "clean_logins", "clean_sess"}), Cut: -len(marks)}
+			cutFor[c.Cut] = len(marks) - 1
+			sc = append(sc, c)
+		}
+		evs, _ := g.sessionScript(sid, pid, false, true, r.Chance(2, 3), r.Intn(4), 0, -1)
+		sc = append(sc, evs...)
+		scripts = append(scripts, sc)
+		h.Plans[sid] = SessPlan{Sid: sid, PID: pid, HasLoginRec: true, LoginID: last.Login.ID, WF: true}
+	}
+	ops := interleave(r, scripts)
+	// log times: a superseded login was logged at or before its delivery; the last login of a pid strictly after
+	// the earlier ones' log times; the marked cut-offs fall between
+	idxOf := map[int]int{}
+	for i := range ops {
+		if ops[i].Kind == "login" {
+			idxOf[ops[i].Login.ID] = i
+		}
+	}
+	at := map[int]int{}
+	for i := range ops {
+		if ops[i].Kind == "login" {
+			l := *ops[i].Login
+			l.AtIdx = i
+			ops[i].Login = &l
+			at[l.ID] = i
+		}
+	}
+	for _, m := range marks {
+		// the earlier login may have been logged well before it was delivered
+		if i := idxOf[m.first]; i > 0 && r.Bool() {
+			l := *ops[i].Login
+			l.AtIdx = r.Intn(i + 1)
+			ops[i].Login = &l
+			at[m.first] = l.AtIdx
+		}
+		// the last one at its delivery, or anywhere after the earlier one's log time
+		if i := idxOf[m.last]; r.Chance(1, 3) {
+			l := *ops[i].Login
+			l.AtIdx = at[m.first] + 1 + r.Intn(i-at[m.first])
+			ops[i].Login = &l
+			at[m.last] = l.AtIdx
+		}
+	}
+	for i := range ops {
+		if ops[i].Kind != "clean_sess" && ops[i].Kind != "clean_logins" {
+			continue
+		}
+		if mi, ok := cutFor[ops[i].Cut]; ok && ops[i].Cut < 0 {
+			m := marks[mi]
+			// older than the cut-off: the earlier login; not older: the last one
+			lo, hi := at[m.first]+1, at[m.last]
+			ops[i].Cut = lo + r.Intn(hi-lo+1)
+			if r.Chance(1, 5) {
+				ops[i].Cut = r.Intn(i + 1) // anywhere
+			}
+			if ops[i].Cut > i {
+				ops[i].Cut = i
+			}
+		}
+	}
+	h.Ops = ops
+	h.Debug = r.Chance(1, 3)
+	return h
+}
+
+// genOvertake (C09): chains of 2-3 sessions opened one after the other by the SAME sshd pid (the pid is re-used after
+// the earlier process has ended).  The two streams travel through different pipes, so the sshd line of the NEW process
+// may overtake the LAST audit records of the ended session: the new login arrives anywhere after the previous login
+// (same pipe) and after the previous session's LOGIN record - before the old session's credential-disposal record,
+// between its last records, after them, or inside the new session's records.  By construction session c of a chain
+// belongs to login c.  Other chains and plain sessions run alongside; stray late records of ended sessions too.
+func genOvertake(r *hutil.Rand) History {
+	g := &genState{r: r, nextSid: 1 + r.Intn(50), nextPid: 100 + r.Intn(1000)}
+	h := History{Budget: -1, Plans: map[string]SessPlan{}, Mode: "overtake"}
+	var scripts [][]HOp
+	for k := 1 + r.Intn(3); k > 0; k-- {
+		pid := g.nextPid
+		g.nextPid += 1 + r.Intn(5)
+		if k > 1 && r.Chance(1, 3) {
+			sid := strconv.Itoa(g.nextSid)
+			g.nextSid += 1 + r.Intn(3)
+			s, lid := g.sessionScript(sid, pid, true, true, r.Bool(), r.Intn(4), 0, -1)
+			scripts = append(scripts, s)
+			h.Plans[sid] = SessPlan{Sid: sid, PID: pid, HasLoginRec: true, LoginID: lid, WF: true}
+			continue
+		}
+		var chain []HOp
+		prevLogin, prevRec := -1, -1 // positions in chain of the previous session's login and LOGIN record
+		n := 2 + r.Intn(2)
+		for c := 0; c < n; c++ {
+			sid := strconv.Itoa(g.nextSid)
+			g.nextSid += 1 + r.Intn(3)
+			lastOne := c == n-1
+			nEv := r.Intn(4)
+			evs, _ := g.sessionScript(sid, pid, false, true, false, nEv, 0, -1)
+			if !lastOne || r.Bool() {
+				if r.Bool() {
+					evs = append(evs, g.ev(sid, "USER_END", strconv.Itoa(pid)))
+				}
+				evs = append(evs, g.ev(sid, "CRED_DISP", strconv.Itoa(pid)))
+			}
+			l := g.login(pid, "")
+			base := len(chain)
+			lo := 0
+			if c > 0 {
+				lo = prevLogin + 1
+				if prevRec+1 > lo {
+					lo = prevRec + 1
+				}
+			} else {
+				lo = base
+			}
+			pos := lo + r.Intn(base+len(evs)-lo+1)
+			if c > 0 && lo < base && r.Bool() {
+				pos = lo + r.Intn(base-lo) // before the previous session's last record
+			}
+			chain = append(chain, evs...)
+			chain = append(chain[:pos], append([]HOp{l}, chain[pos:]...)...)
+			prevLogin, prevRec = pos, base
+			if pos <= base {
+				prevRec = base + 1
+			}
+			h.Plans[sid] = SessPlan{Sid: sid, PID: pid, HasLoginRec: true, LoginID: l.Login.ID, WF: true}
+			if !lastOne && r.Chance(1, 3) {
+				// a stray late record of the ended session, anywhere later
+				scripts = append(scripts, []HOp{g.ev(sid, hutil.Pick(r, otherTypes), strconv.Itoa(pid+1000))})
+			}
+		}
+		scripts = append(scripts, chain)
+	}
+	ops := interleave(r, scripts)
+	if r.Chance(1, 2) {
+		// cleanup calls whose cut-off lies before everything: they discard nothing
+		for n := 1 + r.Intn(2); n > 0; n-- {
+			pos := r.Intn(len(ops) + 1)
+			c := HOp{Kind: hutil.Pick(r, []string{"clean_sess", "clean_logins"}), Cut: 0}
+			ops = append(ops[:pos], append([]HOp{c}, ops[pos:]...)...)
+		}
+	}
+	for i := range ops {
+		if ops[i].Kind == "login" {
+			l := *ops[i].Login
+			l.AtIdx = i
+			if i > 0 && r.Chance(1, 3) {
+				l.AtIdx = r.Intn(i + 1)
+			}
+			ops[i].Login = &l
+		}
+	}
+	h.Ops = ops
+	h.Debug = r.Chance(1, 3)
+	return h
+}
